@@ -130,7 +130,7 @@ def _collect(res, files, label, remove=True):
         summary = None
         for line in out.splitlines():
             if line.startswith("SUMMARY"):
-                summary = dict(kv.split("=") for kv in line.split()[1:])
+                summary = vlib.kvs(line)
             elif line.startswith("MISMATCH") or line.startswith("CRASH"):
                 idx = None
                 for tok in line.split():
